@@ -152,6 +152,9 @@ func run(c *hc.Ctx) {
 	if c.Only == "" || c.Only == "units" {
 		unitDocs(c)
 	}
+	if c.Only == "" || c.Only == "pieces" {
+		pieces(c)
+	}
 	if LexMismatch > 0 {
 		c.Hist["css-lexing-differs-from-generated-text"] = LexMismatch
 	}
@@ -174,6 +177,33 @@ func oneDoc(c *hc.Ctx, d *Doc) {
 	svg := d.SVG()
 	p := parse(svg)
 	c.Count("class:" + d.Class)
+	// branch coverage of setAttribute / selectors: which declarations and selector forms the document carries
+	allNodes(d.Root, func(n *Node, _ []*Node) {
+		for _, a := range n.Attrs {
+			if a.Key == "style" {
+				for _, p := range a.Style {
+					c.Count("decl:style-attr:" + p.Key)
+				}
+			} else if a.Key != "points" && a.Key != "d" {
+				c.Count("decl:attr:" + a.Key)
+			}
+		}
+		for _, r := range n.Rules {
+			for _, p := range r.Props {
+				c.Count("decl:rule:" + p.Key)
+			}
+			for _, s := range r.Sels {
+				c.Count(fmt.Sprintf("selector:compounds=%d", len(s)))
+				for i, nd := range s {
+					if i > 0 && nd.Child {
+						c.Count("selector:child-combinator")
+					} else if i > 0 {
+						c.Count("selector:descendant-combinator")
+					}
+				}
+			}
+		}
+	}, nil)
 	for f := range d.Features {
 		c.Count("feature:" + f)
 	}
